@@ -4,6 +4,9 @@ pub mod c02;
 pub mod c06;
 pub mod c08;
 pub mod c09;
+pub mod c10;
+pub mod c12;
+pub mod c15;
 pub mod lines;
 
 use crate::report::{Run, Violation};
@@ -35,7 +38,7 @@ pub fn seq_report<M: SeqModel>(run: &mut Run, m: &M, res: &SeqResult, cfg: &SeqC
         let hist = names(&letters, &v.history);
         run.violate(Violation {
             clause: v.clause.clone(),
-            shape: hist.join(" ; "),
+            shape: v.shape.clone().unwrap_or_else(|| hist.join(" ; ")),
             detail: v.detail.clone(),
             replay: json!({"engine": "seq", "history": v.history, "letters": hist}),
         });
@@ -49,6 +52,9 @@ pub fn dispatch(run: &mut Run) -> bool {
         "C06" => c06::run(run),
         "C08" => c08::run(run),
         "C09" => c09::run(run),
+        "C10" => c10::run(run),
+        "C12" => c12::run(run),
+        "C15" => c15::run(run),
         _ => return false,
     }
     true
